@@ -25,6 +25,7 @@
 
 #include "cmi_memutils.h"
 #include "cmi_process.h"
+#include "cmi_verif.h"
 
 struct cmb_condition *cmb_condition_create(void)
 {
@@ -86,6 +87,7 @@ static void wakeup_event_condition(void *vp, void *arg)
     cmb_assert_debug(vp != NULL);
 
     struct cmb_process *pp = (struct cmb_process *)vp;
+    CMI_VERIF_EMIT("Wake.condition", 0u, pp, NULL, (int64_t)arg, 0.0);
     cmb_logger_info(stdout, "Wakes %s signal %" PRIi64, pp->name, (int64_t)arg);
     cmb_assert_debug(!cmi_slist_is_empty(&(pp->awaits)));
 
@@ -147,6 +149,7 @@ bool cmb_condition_signal(struct cmb_condition *cvp)
             cmb_logger_info(stdout, "Condition %s satisfied for process %s",
                             rbp->name, pp->name);
             tmp[cnt++] = htp->key;
+            CMI_VERIF_EMIT("GuardGrant", 1u, &(cvp->guard), pp, 0, 0.0);
             const double time = cmb_time();
             const int64_t priority = cmb_process_priority(pp);
             (void)cmb_event_schedule(wakeup_event_condition, pp,
